@@ -684,6 +684,8 @@ def _discover(ctx, R: Roles, model):
         for nm, (_, at_) in _inline_fresh_nodes(R, add).items():
             if at_ is not None:
                 model.setdefault('nodes_attr', at_)
+    if 'nodes_attr' not in model and 'links_attr' in model:
+        _derive_node_list(ctx, R, model)
     for c in R.calls_to(add, con):
         if not acfg.enclosing_fors(acfg.node_containing(c)):
             b = bind_args(c, con)
@@ -717,6 +719,167 @@ def _discover(ctx, R: Roles, model):
     model['end_none'] = earg is None or (isinstance(earg, ast.Constant) and earg.value is None)
     for k in ('links_attr', 'nodes_attr', 'tasks_attr'):
         model.setdefault(k, '_unidentified_' + k)
+
+
+ARC_NODES = '_c12_arc_nodes'
+
+
+def _derive_node_list(ctx, R: Roles, model):
+    """a calculator without node registry: calc may derive the node list from the arc table - the start and the end node of every
+    registered arc, which are all nodes there are when only the arc builder (and calc, for the terminal nodes) makes nodes.
+    Recognised at the top level of calc:  `N = []; for l in self.<links>.values(): N.append(l.start); N.append(l.end)` (also
+    extend / += with both), `N = [n for l in self.<links>.values() for n in (l.start, l.end)]`, `N = [l.start for l in ..] +
+    [l.end for l in ..]`, and plain aliases / list() copies of such a local.  The reads of these locals are then written
+    `self.<ARC_NODES>` (in the parsed tree of this run), so that the clauses about the node list apply to them unchanged."""
+    prog = ctx.prog
+    calc, add = R.calc, R.add
+    links_attr = model['links_attr']
+    sn = calc.self_name
+    if not isinstance(calc.node, ast.FunctionDef) or sn is None:
+        return
+    for f_ in prog.all_funcs():
+        if f_.module is R.mod and f_ not in (add, R.new_node, calc) and any(
+                c_.kind == 'ctor' and c_.targets and c_.targets[0].cls == R.node_cls for c_ in ctx.cg.calls_in(f_)):
+            return          # nodes are made elsewhere too: the arcs do not cover them
+    body = calc.node.body
+
+    def arcs(it) -> bool:
+        return bool(match(f"{sn}.{links_attr}.values()", it) or match(f"list({sn}.{links_attr}.values())", it))
+
+    def sides(elts, lv) -> Optional[List[str]]:
+        out = []
+        for e_ in elts:
+            m_ = match(f"{lv}.$side", e_)
+            if not m_ or m_['side'] not in ('start', 'end'):
+                return None
+            out.append(m_['side'])
+        return out
+
+    def mutated_outside(nm: str, own: List[ast.AST]) -> bool:
+        inside = {id(x) for s_ in own for x in ast.walk(s_)}
+        for n_ in walk_no_nested(calc.node):
+            if id(n_) in inside:
+                continue
+            if isinstance(n_, ast.Call) and isinstance(n_.func, ast.Attribute) and isinstance(n_.func.value, ast.Name) \
+                    and n_.func.value.id == nm and n_.func.attr in ('append', 'extend', 'insert', 'remove', 'pop', 'clear', 'sort',
+                                                                     'reverse'):
+                return True
+            if isinstance(n_, (ast.AugAssign, ast.Delete)) and any(isinstance(x, ast.Name) and x.id == nm and
+                                                                   isinstance(x.ctx, (ast.Store, ast.Del)) for x in ast.walk(n_)):
+                return True
+            if isinstance(n_, ast.Name) and n_.id == nm and isinstance(n_.ctx, ast.Store):
+                return True
+        return False
+
+    def target_name(st_) -> Optional[str]:
+        if isinstance(st_, ast.Assign) and len(st_.targets) == 1 and isinstance(st_.targets[0], ast.Name):
+            return st_.targets[0].id
+        if isinstance(st_, ast.AnnAssign) and isinstance(st_.target, ast.Name) and st_.value is not None:
+            return st_.target.id
+        return None
+
+    def both_sides_expr(v) -> bool:
+        if isinstance(v, ast.ListComp) and len(v.generators) == 2:
+            g0, g1 = v.generators
+            if isinstance(g0.target, ast.Name) and isinstance(g1.target, ast.Name) and not g0.ifs and not g1.ifs and arcs(g0.iter) \
+                    and isinstance(g1.iter, (ast.Tuple, ast.List)) and isinstance(v.elt, ast.Name) and v.elt.id == g1.target.id:
+                s_ = sides(g1.iter.elts, g0.target.id)
+                return s_ is not None and sorted(s_) == ['end', 'start']
+        if isinstance(v, ast.BinOp) and isinstance(v.op, ast.Add):
+            got = []
+            for part in (v.left, v.right):
+                if not (isinstance(part, ast.ListComp) and len(part.generators) == 1):
+                    return False
+                g0 = part.generators[0]
+                if not (isinstance(g0.target, ast.Name) and not g0.ifs and arcs(g0.iter)):
+                    return False
+                s_ = sides([part.elt], g0.target.id)
+                if s_ is None:
+                    return False
+                got += s_
+            return sorted(got) == ['end', 'start']
+        return False
+
+    complete: Dict[str, List[ast.AST]] = {}
+    for i, st in enumerate(body):
+        if isinstance(st, ast.For) and isinstance(st.target, ast.Name) and arcs(st.iter) and not st.orelse:
+            lv = st.target.id
+            got: Dict[str, List[str]] = {}
+            ok = True
+            for b in st.body:
+                recv = elts = None
+                if isinstance(b, ast.Expr) and isinstance(b.value, ast.Call) and isinstance(b.value.func, ast.Attribute) \
+                        and isinstance(b.value.func.value, ast.Name) and len(b.value.args) == 1 and not b.value.keywords:
+                    a0 = b.value.args[0]
+                    if b.value.func.attr == 'append':
+                        recv, elts = b.value.func.value.id, [a0]
+                    elif b.value.func.attr == 'extend' and isinstance(a0, (ast.List, ast.Tuple)):
+                        recv, elts = b.value.func.value.id, a0.elts
+                elif isinstance(b, ast.AugAssign) and isinstance(b.op, ast.Add) and isinstance(b.target, ast.Name) \
+                        and isinstance(b.value, (ast.List, ast.Tuple)):
+                    recv, elts = b.target.id, b.value.elts
+                s_ = sides(elts, lv) if recv is not None else None
+                if s_ is None:
+                    ok = False
+                    break
+                got.setdefault(recv, []).extend(s_)
+            if not ok or len(got) != 1:
+                continue
+            (nm, ss), = got.items()
+            inits = [s_ for s_ in body[:i] if target_name(s_) == nm]
+            if sorted(ss) != ['end', 'start'] or len(inits) != 1:
+                continue
+            iv = inits[0].value
+            if not (match("[]", iv) or match("list()", iv)) or mutated_outside(nm, [inits[0], st]):
+                continue
+            complete[nm] = [inits[0], st]
+        else:
+            nm = target_name(st)
+            if nm is None or nm in complete:
+                continue
+            v = st.value
+            alias = v.id if isinstance(v, ast.Name) else (v.args[0].id if match("list($x)", v) and isinstance(v.args[0], ast.Name)
+                                                          else None)
+            if (both_sides_expr(v) or (alias is not None and alias in complete)) and not mutated_outside(nm, [st]):
+                complete[nm] = [st]
+    if not complete:
+        return
+    builders = {id(s_) for own in complete.values() for s_ in own}
+
+    class _Reads(ast.NodeTransformer):
+        def visit_Name(self, n_):
+            if isinstance(n_.ctx, ast.Load) and n_.id in complete:
+                return ast.copy_location(ast.Attribute(value=ast.Name(id=sn, ctx=ast.Load()), attr=ARC_NODES, ctx=ast.Load()), n_)
+            return n_
+
+        def visit_Lambda(self, n_):
+            return n_
+
+        def visit_FunctionDef(self, n_):
+            return n_
+
+    tr = _Reads()
+    for k, st in enumerate(body):
+        if id(st) not in builders:
+            body[k] = ast.fix_missing_locations(tr.visit(st))
+    import sa.cfg as _cfgm
+    import sa.flow as _flowm
+    getattr(ctx.typer, '_local_cache', {}).pop(id(calc.node), None)
+    getattr(ctx.cg, '_calls', {}).pop(calc.qual, None)
+    getattr(_cfgm, '_CFG_CACHE', {}).pop(id(calc.node), None)
+    getattr(_flowm, '_FLOWS', {}).pop(id(calc.node), None)
+    model['nodes_attr'] = ARC_NODES
+    model['derived_nodes'] = sorted(complete)
+    prog.normalisation_log = list(getattr(prog, 'normalisation_log', [])) + [
+        f"c12: {calc.qual}: local(s) {', '.join(sorted(complete))} hold the start and end node of every registered arc - read as the "
+        f"calculator's node list"]
+
+
+def _arc_table_reads(R: Roles, model) -> int:
+    """how often calc reads the arc table (the reference tree: once, in the selection loop)"""
+    la = model.get('links_attr')
+    return sum(1 for n_ in walk_no_nested(R.calc.node) if isinstance(n_, ast.Attribute) and n_.attr == la
+               and isinstance(n_.value, ast.Name) and n_.value.id == R.calc.self_name)
 
 
 # ---------------------------------------------------------------------------------------------------------------------
@@ -867,7 +1030,14 @@ def _leaf_arcs(ctx, R: Roles, model, o):
     if not all(fresh):
         o.undecided(add, st, linkcall, "start / end of the arc are not results of the fresh-node helper")
         return
+    derived = model.get('derived_nodes')
     for nm, at_ in inline_attrs:
+        if at_ is None and derived:
+            continue        # no registry: calc takes the nodes from the arcs (start / end of the link stored above)
+        if at_ is None and _arc_table_reads(R, model) > 1:
+            o.undecided(add, st, nm, f"the freshly created node `{nm}` is not appended to a node list of the calculator; calc reads the "
+                                     f"arc table in a way the rule cannot relate to `the start and end node of every arc`")
+            return
         if at_ is None:
             o.refute(add, st, nm, f"the freshly created node `{nm}` is not (unconditionally) appended to the calculator's node list: "
                                   f"the passes never visit it")
@@ -904,7 +1074,7 @@ def _leaf_arcs(ctx, R: Roles, model, o):
         if inline_attrs[0][1] != inline_attrs[1][1]:
             o.undecided(add, st, linkcall, "the two nodes of the arc are registered in two different lists")
             return
-        nodes_attr = inline_attrs[0][1]
+        nodes_attr = inline_attrs[0][1] or (ARC_NODES if derived else None)
     elif inline_attrs or nn is None:
         o.undecided(add, st, linkcall, "the nodes of the arc are created in two different ways")
         return
@@ -920,14 +1090,21 @@ def _leaf_arcs(ctx, R: Roles, model, o):
         if not ok_ret:
             o.undecided(nn, nn.node, nn.name, f"fresh-node helper does not return a new {R.node_cls}()")
             return
+        if nodes_attr is None and derived:
+            nodes_attr = ARC_NODES
+        elif nodes_attr is None and _arc_table_reads(R, model) > 1:
+            o.undecided(nn, nn.node, nn.name, "a freshly created node is not appended to a node list of the calculator; calc reads the "
+                                              "arc table in a way the rule cannot relate to `the start and end node of every arc`")
+            return
         if nodes_attr is None:
             o.refute(nn, nn.node, nn.name, "a freshly created node is not (unconditionally) appended to the calculator's node list: "
                                            "the passes never visit it")
             return
     model['nodes_attr'] = nodes_attr
     model['id_param'], model['units_param'] = id_param, units_param
-    o.site(add, st, f"arc: {src(st)} with link {con.name}(new node, new node, {units_param}); nodes registered in "
-                    f"self.{unmangle(nodes_attr)}")
+    o.site(add, st, f"arc: {src(st)} with link {con.name}(new node, new node, {units_param}); " + (
+        f"no node registry: calc takes the nodes from the arcs (local {', '.join(derived)})" if nodes_attr == ARC_NODES else
+        f"nodes registered in self.{unmangle(nodes_attr)}"))
 
     # (3) in the insert: the arc builder call, its work term, its leaf guard
     calls = R.calls_to(ins, add)
@@ -1484,6 +1661,7 @@ def _leaf_helper_checker(ctx, R: Roles, cache: dict):
         return verify(t)
 
     checker.resolve = target_of
+    checker.cache = cache
     return checker
 
 
@@ -3071,6 +3249,35 @@ def _setattr_stores(ctx, R: Roles, eff, o, funcs):
                     break
 
 
+def _acc_param_fresh(ctx, eff, reach, f: Func, w) -> bool:
+    """accumulator passing (`__collect_leaves(task, leaves)`): the builtin container mutated by `w` is a parameter of f, and every
+    call of f hands in a container the caller allocated itself - or, in a recursive call, the very parameter"""
+    if not isinstance(w.root, str) or not w.root.startswith('param:'):
+        return False
+    p = w.root[6:]
+    if p == f.self_name or p not in f.params:
+        return False
+    callers = {g.qual: g for g in list(reach) + [g for g in ctx.prog.all_funcs() if g.module is f.module]}
+    sites = 0
+    for g in callers.values():
+        for ci in ctx.cg.calls_in(g):
+            if f not in [t for t in ci.targets if t is not None]:
+                continue
+            bind = eff._arg_binding(ci, f, g)
+            e = bind.get(p)
+            if e is None:
+                return False
+            if g is f and isinstance(e, ast.Name) and e.id == p:
+                continue
+            try:
+                if eff.container_root(e, g) != 'fresh':
+                    return False
+            except Exception:       # noqa: BLE001
+                return False
+            sites += 1
+    return sites > 0
+
+
 def _pure(ctx, R: Roles, o):
     prog = ctx.prog
     eff = Effects(prog, ctx.typer, ctx.cg)
@@ -3191,6 +3398,9 @@ def _pure(ctx, R: Roles, o):
         for w in dws:
             rt = base(w.recv_type)
             if w.root == 'fresh' or rt in own_classes:
+                continue
+            if w.field == '<container>' and _acc_param_fresh(ctx, eff, reach, f, w):
+                o.site(f, w.node, f"`{src(w.node)[:50]}` fills a list that every caller inside the calculator allocates itself")
                 continue
             bad += 1
             if rt in OWN_TASK_CLASSES:
